@@ -944,6 +944,105 @@ def case_eigen_rotation(case):
     return {"v": v[:4], "t": t, "o": repr((n, shape, case["q0"], case["a0"])), "nt": True}
 
 
+SPIRAL_SCALES = [1.0, 2.0, 0.5]
+
+
+def _spiral_member(n, qi, ai, si, p, has, flip):
+    """Q^-1 B Q, B block diagonal: s R(+-theta) in coordinates (p, p+1) - eigenvalues s e^{+-i theta} - and REAL
+    eigenvalues on the other n - 2 diagonal places chosen to collide with the complex pair in real part (s cos theta),
+    in modulus (s) and in minus the real part; has=False leaves s cos theta out.  Returns (matrix, real eigenvalues)."""
+    fam = L.unimodular_family(n)
+    Q = np.array(fam[qi % len(fam)], dtype=float)
+    Qi = np.array(L.unimodular_inverse(fam[qi % len(fam)]), dtype=float)
+    th = ROT_ANGLES[ai % len(ROT_ANGLES)] * (-1.0 if flip else 1.0)
+    s = SPIRAL_SCALES[si % len(SPIRAL_SCALES)]
+    c = float(s * np.cos(th))
+    extras = ([c, s, -c] if has else [s, -c, 2.0 * c])[:n - 2]
+    B = np.zeros((n, n))
+    B[p:p + 2, p:p + 2] = [[c, -s * np.sin(th)], [s * np.sin(th), c]]
+    rest = [k for k in range(n) if k not in (p, p + 1)]
+    for k, e in zip(rest, extras):
+        B[k, k] = e
+    return Qi @ B @ Q, extras, c
+
+
+@_quiet
+def case_eigen_spiral(case):
+    """Real transformations with a complex eigenvalue pair s e^{+-i theta} AND real eigenvalues that agree with the pair
+    in real part / modulus: eigenvector(lambda) for every real eigenvalue lambda must return v with v M = lambda v;
+    eigenvector(s cos theta) on a member WITHOUT that real eigenvalue must raise GeometryError (single) or report zero
+    coordinates - the real part of a non-real eigenvalue is not an eigenvalue."""
+    from geometry_tools import projective
+    n, shape = case["n"], tuple(case["shape"])
+    cnt = int(np.prod(shape)) if shape else 1
+    pattern = case["has"]                       # per member
+    mem = [_spiral_member(n, case["q0"] + j, case["a0"], case["s"], (case["p"] + j) % (n - 1), pattern[j % len(pattern)], j % 2 == 1)
+           for j in range(cnt)]
+    arr = np.stack([m[0] for m in mem]).reshape(shape + (n, n))
+    c = mem[0][2]
+    queries = [c] + [e for e in mem[0][1] if e != c and all(e in m[1] for m in mem)]
+    v, t = [], 0
+    for oname, T in (("rows", projective.Transformation(arr.copy())),
+                     ("columns", projective.Transformation(np.swapaxes(arr, -1, -2).copy(), column_vectors=True))):
+        for lam in queries:
+            kind = "real-part-of-complex-pair" if lam == c else "other-real-eigenvalue"
+            where = "%s/%s/%s" % (kind, oname, "single" if not shape else "composite")
+            present = [lam in m[1] for m in mem]
+            if not shape and not present[0]:
+                raised, P = _raises_geometry_error(lambda: T.eigenvector(float(lam)))
+                t += 1
+                if raised:
+                    continue
+            else:
+                P = T.eigenvector(float(lam))
+                t += 1
+            vec = np.asarray(P.proj_data)
+            if vec.shape != shape + (n,):
+                v.append(_V("eigenvector/spiral/shape/" + where, "composite shape %r: data shape %r" % (shape, vec.shape)))
+                continue
+            vf = vec.reshape((cnt, n))
+            for j in range(cnt):
+                M = mem[j][0]
+                u = vf[j]
+                if not present[j]:
+                    if not (np.all(np.isfinite(u)) and float(np.max(np.abs(u))) <= 1e-12):
+                        v.append(_V("eigenvector/spiral/reported-for-absent-eigenvalue/" + where,
+                                    "member %d of %r (n=%d, complex pair %r e^(+-i %r), real eigenvalues %r, conj %d): lambda=%r is not an eigenvalue, returned %r"
+                                    % (j, shape, n, SPIRAL_SCALES[case["s"]], ROT_ANGLES[case["a0"]], mem[j][1], case["q0"] + j, lam, u.tolist())))
+                        break
+                    continue
+                if not np.all(np.isfinite(u)) or float(np.max(np.abs(u))) < 1e-6:
+                    v.append(_V("eigenvector/spiral/degenerate/" + where, "member %d: lambda=%r is an eigenvalue (real eigenvalues %r), returned %r" % (j, lam, mem[j][1], u.tolist())))
+                    break
+                u = u / np.max(np.abs(u))
+                res = float(np.max(np.abs(u @ M - lam * u)))
+                if not res <= 1e-9 * (1.0 + float(np.max(np.abs(M)))):
+                    v.append(_V("eigenvector/spiral/not-an-eigenvector/" + where,
+                                "member %d of %r (n=%d, complex pair %r e^(+-i %r) at coordinates %d,%d, real eigenvalues %r, conj %d): eigenvector(%r) = %r, |v M - lambda v| = %.3g"
+                                % (j, shape, n, SPIRAL_SCALES[case["s"]], ROT_ANGLES[case["a0"]], (case["p"] + j) % (n - 1), (case["p"] + j) % (n - 1) + 1,
+                                   mem[j][1], case["q0"] + j, lam, u.tolist(), res)))
+                    break
+    return {"v": v[:4], "t": t, "o": repr((n, shape, case["q0"], case["a0"], case["s"], case["p"], pattern)), "nt": True}
+
+
+def spiral_cases():
+    out = []
+    for n in (2, 3, 4, 5):
+        nq = len(L.unimodular_family(n))
+        for sh in ([], [2], [3]):
+            cnt = int(np.prod(sh)) if sh else 1
+            pats = [[True], [False]] if cnt == 1 else [[True], [True, False], [False, True], [False]]
+            for pat in pats:
+                if n == 2 and any(pat):
+                    continue                   # no room for a real eigenvalue
+                for q0 in range(nq):
+                    for a0 in range(len(ROT_ANGLES)):
+                        for s in range(len(SPIRAL_SCALES)):
+                            for p in sorted({0, n - 2}):
+                                out.append({"n": n, "shape": sh, "q0": q0, "a0": a0, "s": s, "p": p, "has": pat})
+    return out
+
+
 # ------------------------------------------------------------------------------------------
 # histories of one Transformation object: eigen-data answer for the CURRENT matrix (mc/diffhist.py)
 # ------------------------------------------------------------------------------------------
@@ -1461,6 +1560,13 @@ def run(ctx):
                 domains={"n": [2, 3, 4, 5], "shapes": [[], [1], [2], [3], [2, 2]], "members": "Q^-1 R(theta) Q, theta in %r (consecutive members: every second angle), Q from the unimodular family" % ROT_ANGLES,
                          "calls": ["eigenvector()", "eigenvector(1.0) for n >= 3"], "layouts": ["row matrices", "column_vectors=True"],
                          "oracle": "v M = mu v with mu in {e^(i theta), e^(-i theta), 1} over the complex numbers"}, chunk=8)
+    ctx.product("eigenvector-real-eigenvalue-beside-complex-pair", "checks.c16:case_eigen_spiral", spiral_cases(),
+                domains={"n": [2, 3, 4, 5], "shapes": [[], [2], [3]],
+                         "members": "Q^-1 diag-block(s R(+-theta), real eigenvalues) Q: s in %r, theta in %r, block at the first or last coordinate pair (moves with the member), "
+                                    "real eigenvalues from (s cos theta, s, -s cos theta) - or (s, -s cos theta, 2 s cos theta) for members WITHOUT s cos theta -, Q from the unimodular family" % (SPIRAL_SCALES, ROT_ANGLES),
+                         "patterns": "all members have the real eigenvalue s cos theta / none / alternating",
+                         "calls": ["eigenvector(s cos theta)", "eigenvector(every other real eigenvalue common to the members)"], "layouts": ["row matrices", "column_vectors=True"],
+                         "oracle": "v M = lambda v where lambda is an eigenvalue; GeometryError or zero coordinates where it is not"}, chunk=16)
     ctx.product("eigenvector-diagonalize", "checks.c16:case_eigen", eig_cases,
                 domains={"eigenvalue alphabet": vals, "n": "2..6", "conjugators": "unimodular family"}, chunk=32)
     ctx.product("eigenvector-diagonalize-batch", "checks.c16:case_eigen_batch", eig_batch,
